@@ -57,6 +57,29 @@ fn v04(class: &str, idx: usize, detail: String) -> Violation {
     }
 }
 
+/// the stranger brings funds of their own: the instruction's `token_owner_account_a/b` slots get accounts of the same mints,
+/// owned by the stranger and well funded (so that a deposit does not fail merely because the victim's accounts are not theirs)
+fn with_own_funds(c: &Call, v: &IxView, f: &mut Ledger, ixn: &mut Ix, attacker: &Pubkey, salt: u64) -> bool {
+    let mut n = 0;
+    for (j, ps) in ["token_owner_account_a", "token_owner_account_b"].iter().enumerate() {
+        let Some(pi) = c.idx(ps) else { continue };
+        let cur = v.ix.accounts[pi].pubkey;
+        let Some(acc) = v.pre.get(&cur) else { continue };
+        if acc.data.len() < 165 || !(acc.owner == ix::tok() || acc.owner == ix::tok22()) {
+            continue;
+        }
+        let mut d = (*acc.data).clone();
+        d[32..64].copy_from_slice(attacker.as_ref());
+        d[64..72].copy_from_slice(&(u64::MAX / 4).to_le_bytes());
+        d[72..76].copy_from_slice(&0u32.to_le_bytes());
+        let k = scratch_key(salt, 4200 + j as u64);
+        f.put(k, Account::new(acc.lamports, d, acc.owner));
+        ixn.accounts[pi].pubkey = k;
+        n += 1;
+    }
+    n > 0
+}
+
 fn set_delegate(l: &mut Ledger, token_account: &Pubkey, delegate: &Pubkey, amount: u64) {
     if let Some(a) = l.accts.get_mut(token_account) {
         let mut d = (*a.data).clone();
@@ -615,12 +638,25 @@ impl C04 {
                 ixn.accounts[i].pubkey = attacker;
                 ixn.accounts[i].is_signer = true;
                 ixn.accounts[ti].pubkey = fake;
+                let (f0, ix0) = (f.clone(), ixn.clone());
                 let r = exec(&f, ixn);
                 cov.eval(format!("{}|{}|empty_token_account", name, slot));
                 self.cell(format!("{} / {} / empty token account", name, slot), !r.ok);
                 if r.ok {
                     out.push(v04("empty_token_account_accepted", idx, format!("{}: succeeded for the owner of a token account holding 0 position tokens", name)));
                     return;
+                }
+                // ... and paying from funds of their own
+                {
+                    let (mut f1, mut ix1) = (f0, ix0);
+                    if with_own_funds(c, v, &mut f1, &mut ix1, &attacker, salt) {
+                        let r = exec(&f1, ix1);
+                        self.cell(format!("{} / {} / empty token account, own funds", name, slot), !r.ok);
+                        if r.ok {
+                            out.push(v04("empty_token_account_accepted", idx, format!("{}: succeeded for the owner of a token account holding 0 position tokens who pays from token accounts of their own", name)));
+                            return;
+                        }
+                    }
                 }
                 // (f) the attacker holds one token of some OTHER mint (say the token of a dust position of their own)
                 // and presents that account for the victim's position
@@ -641,12 +677,22 @@ impl C04 {
                     ixn.accounts[i].pubkey = attacker;
                     ixn.accounts[i].is_signer = true;
                     ixn.accounts[ti].pubkey = fake;
+                    let (f0, ix0) = (f.clone(), ixn.clone());
                     let r = exec(&f, ixn);
                     cov.eval(format!("{}|{}|token_of_another_mint", name, slot));
                     self.cell(format!("{} / {} / token account holding 1 token of another mint", name, slot), !r.ok);
                     if r.ok {
                         out.push(v04("foreign_position_token_accepted", idx, format!("{}: succeeded for a stranger presenting a token account that holds one token of another mint", name)));
                         return;
+                    }
+                    let (mut f1, mut ix1) = (f0, ix0);
+                    if with_own_funds(c, v, &mut f1, &mut ix1, &attacker, salt) {
+                        let r = exec(&f1, ix1);
+                        self.cell(format!("{} / {} / token account holding 1 token of another mint, own funds", name, slot), !r.ok);
+                        if r.ok {
+                            out.push(v04("foreign_position_token_accepted", idx, format!("{}: succeeded for a stranger presenting a token account that holds one token of another mint and paying from token accounts of their own", name)));
+                            return;
+                        }
                     }
                 }
                 // (e) the attacker's account claims 1 position token but is not owned by a token program:
